@@ -343,7 +343,9 @@ def run(tier: str) -> int:
         progs.append((f"multi:{seed}", srcs, feats))
     for wname, (wsrc, what) in WITNESS.items():
         progs.append((f"witness:{wname}", wsrc, []))
-    vecs = [{}, {"inline_functions": False}] if tier == "quick" else [v for v in comp.all_option_vectors() if not v["remove_labels"]][::2]
+    # thorough: every second vector with labels kept; tail_call_optimization is left to C02 / C06 (its
+    # recorded ra finding is gated per option vector there, the module generator is vector-agnostic)
+    vecs = [{}, {"inline_functions": False}] if tier == "quick" else [v for v in comp.all_option_vectors() if not v["remove_labels"] and not v["tail_call_optimization"]]
     items = []
     for name, srcs, feats in progs:
         try:
